@@ -24,6 +24,7 @@ func init() {
 		ruleRefused(c, "C09.A8")
 		ruleR3(c, "C09.A9")
 		ruleW1(c, "C09.A10")
+		ruleL2(c, "C09.A11")
 	}
 }
 
